@@ -12,11 +12,22 @@
    and phase steps); `qsim` is equality of Queue states up to the order in which blocked / woken consumers are listed.
    Domain (`script_bounded`): sequence numbers below 2^64 and contig sizes summing to less than 2^64 - Queue.v traps on
    usize overflow of current_size + size, Protocol.v does not model it; `rank` is an order embedding of ContigTask's
-   (priority, cost, reversed sequence) order into Z only for cost, sequence < 2^64. *)
+   (priority, cost, reversed sequence) order into Z only for cost, sequence < 2^64.
+
+   Part 2 (rounds link; model/ConcLinkR.v, proofs/ConcLink_rounds.v): Protocol.v is a refinement of part A of
+   Determinism.v.  A Determinism producer script sc (PPush / PWaitEmpty / PClose) corresponds to a Protocol script when
+   Protocol's operation list is sc's pushes and polls (`script_match`); a task is identified by its admission number
+   (`task_at sc sq` = the sq-th push of sc); a Protocol worker is a Determinism worker at the barrier iff its pc is in
+   the sync section and the round it is in has not been classified yet (`dstate_of`).  Forward simulation
+   (`protocol_refines_determinism`), hence C04's rounds_as_intended speaks about Protocol's ghost `rounds`
+   (`rounds_link`); with C05's termination and C04's schedule_independent: every maximal run of the multi-file
+   pipeline terminates AND yields the same archive parts (`terminating_and_deterministic`).
+   Names of Determinism.v are written qualified (both models define task, step, run, init, contig). *)
 From Coq Require Import Permutation.
 From Ragc Require Import Mach.
 From Ragc Require Queue.
-From Ragc Require Import Protocol ConcLink ConcLink_proofs.
+From Ragc Require Import Protocol Protocol_proofs ConcLink ConcLink_proofs ConcLinkR.
+From Ragc Require Determinism Determinism_proto Determinism_gen ConcLink_rounds Consts_determinism.
 Open Scope N_scope.
 
 (* ---- 1.0 the priority projection preserves and reflects ContigTask's order *)
@@ -104,7 +115,7 @@ Print Assumptions take_priority.
 Definition pa1 : params := mkParams 2 100 false.
 Definition sc1 : list cmd := [Contig 60 7%Z 0; Contig 70 7%Z 1].
 Definition tr1 : list label :=
-  [LWork 1 0 0; LProd (Some 1%nat); LProd None; LWork 0 0 0; LProd None; LWork 0 0 0; LWork 1 1 0; LSpurE 1].
+  [LWork 1 0 0; LProd (Some 1%nat); LProd None; LWork 0 0 0; LProd None; LWork 0 0 0; LWork 1 1 0].
 
 Example domain_nonvacuous : old_rule pa1 = false /\ (1 <= nthr pa1)%nat /\ script_bounded sc1 /\
   (forall sz, In sz (contig_sizes sc1) -> sz <= cap pa1).
@@ -114,19 +125,22 @@ Proof.
   - intros sz [<-|[<-|[]]]; vm_compute; discriminate.
 Qed.
 
-Example refinement_nonvacuous : exists s q,
-  run pa1 (init pa1 sc1) tr1 = Some s /\
-  qtrace pa1 (init pa1 sc1) tr1 =
-    [Queue.EPullWait 2 false;
-     Queue.EPushAdmit 0 (rank (contig 60 7%Z 0)) 60 false (Some 2);
-     Queue.EPushWait 0 (rank (contig 70 7%Z 1)) 70 false;
-     Queue.EPullTake 1 false 0 (Some 0);
-     Queue.EPushAdmit 0 (rank (contig 70 7%Z 1)) 70 true None;
-     Queue.EPullTake 2 true 1 None] /\
-  Queue.run (cap pa1) Queue.init (qtrace pa1 (init pa1 sc1) tr1) = Some q /\
-  Queue.items q = map qitem (items s) /\ Queue.cur q = cur s /\ length (Queue.returned q) = 2%nat /\
-  pushed s = [1; 0].
-Proof. eexists. eexists. vm_compute. repeat split; reflexivity. Qed.
+Example refinement_nonvacuous :
+  match run pa1 (init pa1 sc1) tr1,
+        Queue.run (cap pa1) Queue.init (qtrace pa1 (init pa1 sc1) tr1) with
+  | Some s, Some q =>
+    qtrace pa1 (init pa1 sc1) tr1 =
+      [Queue.EPullWait 2 false;
+       Queue.EPushAdmit 0 (rank (contig 60 7%Z 0)) 60 false (Some 2);
+       Queue.EPushWait 0 (rank (contig 70 7%Z 1)) 70 false;
+       Queue.EPullTake 1 false 0 (Some 0);
+       Queue.EPushAdmit 0 (rank (contig 70 7%Z 1)) 70 true None;
+       Queue.EPullTake 2 true 1 None] /\
+    Queue.items q = map qitem (items s) /\ Queue.cur q = cur s /\ length (Queue.returned q) = 2%nat /\
+    pushed s = [1; 0] /\ Queue.kempty q = [] /\ Queue.wempty q = []
+  | _, _ => False
+  end.
+Proof. vm_compute. repeat split; reflexivity. Qed.
 
 (* the domain condition is needed: with contig sizes summing to 2^64 Protocol.v admits the second push (its
    current_size is an unbounded N), Queue.v (= the dev-profile code) traps on `current_size + size_bytes` *)
@@ -141,4 +155,146 @@ Proof.
   split; [vm_compute; reflexivity|]. split.
   - unfold qsim, same_set. vm_compute. repeat split; auto; try constructor; intros [].
   - split; [vm_compute; reflexivity|]. intros (_ & H). vm_compute in H. discriminate.
+Qed.
+
+(* ================================================================================================= part 2 *)
+Example script_match_unfolded : forall n script sc, script_match n script sc <->
+  exists body, sc = body ++ [Determinism.PClose] /\ ~ In Determinism.PClose body /\ todo_of n script = pops body.
+Proof. intros. reflexivity. Qed.
+
+(* ---- 2.0 forward simulation Protocol.v -> Determinism.v part A: every reachable Protocol state is related to the
+   state some Determinism schedule sigma reaches (any disabled Determinism event is a no-op, so every list is a
+   schedule); Rel is spelled out below *)
+Theorem protocol_refines_determinism : forall (pa : params) (script : list cmd) (sc : list Determinism.pact),
+  old_rule pa = false -> (1 <= nthr pa)%nat -> script_match (nthr pa) script sc ->
+  forall s : state, reachable pa script s ->
+  exists sigma, ConcLink_rounds.Rel sc s (Determinism.run (cap pa) sigma (Determinism.init (nthr pa) sc)).
+Proof.
+  intros pa script sc H1 H2 H3 s R. exact (proj2 (ConcLink_rounds.sim_reachable pa script sc H1 H2 H3 s R)).
+Qed.
+Print Assumptions protocol_refines_determinism.
+
+Example Rel_unfolded : forall sc s ds, ConcLink_rounds.Rel sc s ds <->
+  (Permutation (Determinism.s_q ds) (map (task_at sc) (map iseq (items s))) /\
+   (forall it, In it (items s) -> itask it = ptask (task_at sc (iseq it))) /\
+   Determinism.s_closed ds = closed s /\
+   (exists pre, sc = pre ++ Determinism.s_prod ds /\
+      length (Determinism.tasks_of pre) = N.to_nat (nseq s) /\
+      (if closed s then Determinism.s_prod ds = []
+       else exists rest, Determinism.s_prod ds = rest ++ [Determinism.PClose] /\ ~ In Determinism.PClose rest /\
+                         todo s = pops rest)) /\
+   Forall2 (fun wk d => fst d = dstate_of (length (rounds s)) wk) (ws s) (Determinism.s_wk ds) /\
+   Permutation (concat (map snd (Determinism.s_wk ds))) (map (task_at sc) (rawbuf s ++ inflight (ws s))) /\
+   Forall2 (fun rd seqs => Permutation (concat rd) (map (task_at sc) seqs)) (Determinism.s_rounds ds) (rev (rounds s))).
+Proof.
+  intros sc s ds. split.
+  - intros [A B C D E F G]. exact (conj A (conj B (conj C (conj D (conj E (conj F G)))))).
+  - intros (A & B & C & D & E & F & G). constructor; assumption.
+Qed.
+
+(* ---- 2.1 the contigs Protocol.v records per barrier round are the ones Determinism.v's script intends for it, in
+   every reachable state; a final state has recorded as many rounds as the script has token blocks *)
+Theorem rounds_link : forall (pa : params) (script : list cmd) (sc : list Determinism.pact) (R : nat),
+  old_rule pa = false -> (1 <= nthr pa)%nat ->
+  script_match (nthr pa) script sc -> Determinism_proto.wf_script (nthr pa) R sc ->
+  forall s : state, reachable pa script s ->
+  Forall2 (fun seqs k => Permutation (map (task_at sc) seqs) (Determinism.expected_round sc k))
+          (rev (rounds s)) (seq 0 (length (rounds s))) /\
+  (final s -> length (rounds s) = nblocks script).
+Proof. exact ConcLink_rounds.rounds_link_proof. Qed.
+Print Assumptions rounds_link.
+
+(* ---- 2.2 the multi-file scripts of the two models correspond: Protocol's compile_calls on (pushes of the first
+   file; drain; sync_and_flush; pushes of the other files) vs Determinism's multifile_script (same priority bound as
+   C04: no i32 wrap) *)
+Theorem multifile_match : forall (n : nat) (pack : N) (first rest : list Determinism.input),
+  (2 * Z.of_nat (length (first ++ rest)) + 4 < Consts_determinism.det_prio_start - 1000000)%Z ->
+  script_match n (compile_calls false pack (mf_calls first rest))
+               (Determinism.multifile_script Determinism.current_rule n first rest).
+Proof. exact ConcLink_rounds.multifile_match_proof. Qed.
+Print Assumptions multifile_match.
+
+(* ---- 2.3 composition of C05 and C04 for multi-file mode: for any two thread counts, capacities (contigs larger
+   than the capacity included), interleavings (s, s' are ANY reachable final Protocol states), claim interleavings
+   cl cl' and finalize completion orders s3 s3': every maximal run is finite and ends in a final state, and the parts
+   of the file, in file order, are the same.  proto_rounds hands the pipeline what Protocol's worker 0 drained at
+   each barrier (one raw buffer per round; C04's schedule_independent covers every distribution over buffers).
+   Hypotheses on the abstract pipeline functions as in C04.schedule_independent. *)
+Theorem terminating_and_deterministic :
+  forall (G Buf Res Part : Type) (segment : Determinism.contig -> list N)
+         (classify : G -> list (Determinism.skey * N) -> G * list Buf)
+         (flushf : Buf -> Buf * list (N * Part) * Res)
+         (res_gid : Res -> N) (commit : G -> list Res -> list Buf -> G)
+         (fin_seq : G -> G * list (N * Part)) (fin_packs meta_parts : G -> list (N * Part)),
+  (forall g l i j oi oj sp sq, i <> j ->
+      nth_error (map flushf (snd (classify g l))) i = Some oi ->
+      nth_error (map flushf (snd (classify g l))) j = Some oj ->
+      In sp (snd (fst oi)) -> In sq (snd (fst oj)) -> fst sp <> fst sq) ->
+  (forall g, NoDup (map fst (fin_packs g))) ->
+  forall (n n' : nat) (capa capa' pack pack' : N) (first rest : list Determinism.input),
+  (0 < n)%nat -> (0 < n')%nat ->
+  (2 * Z.of_nat (length (first ++ rest)) + 4 < Consts_determinism.det_prio_start - 1000000)%Z ->
+  NoDup (map (fun inp : Determinism.input => fst (fst inp)) (first ++ rest)) ->
+  let script := compile_calls false pack (mf_calls first rest) in
+  let script' := compile_calls false pack' (mf_calls first rest) in
+  let pa := mkParams n capa false in
+  let pa' := mkParams n' capa' false in
+  let sc := Determinism.multifile_script Determinism.current_rule n first rest in
+  let sc' := Determinism.multifile_script Determinism.current_rule n' first rest in
+  (forall s, reachable pa script s -> ends_final pa s) /\
+  (forall s s' cl cl' s3 s3' g0,
+     reachable pa script s -> final s -> reachable pa' script' s' -> final s' ->
+     Determinism.output G Buf Res Part segment classify flushf res_gid commit fin_seq fin_packs meta_parts g0
+       (Determinism.attach (proto_rounds sc s) cl) s3
+     = Determinism.output G Buf Res Part segment classify flushf res_gid commit fin_seq fin_packs meta_parts g0
+       (Determinism.attach (proto_rounds sc' s') cl') s3').
+Proof.
+  intros G Buf Res Part segment classify flushf res_gid commit fin_seq fin_packs meta_parts H1 H2.
+  exact (ConcLink_rounds.terminating_and_deterministic_proof G Buf Res Part segment classify flushf res_gid commit
+           fin_seq fin_packs meta_parts H1 H2).
+Qed.
+Print Assumptions terminating_and_deterministic.
+
+(* single-file mode (compile_calls true pack vs Determinism.singlefile_script) is NOT linked: rounds_link and
+   protocol_refines_determinism are mode independent and apply to it, what is missing is the script correspondence
+     singlefile_match_partial (not proved) :
+       contiguous [] (ref ++ rest) -> priority bound ->
+       script_match n (compile_calls true pack (map push_call ref ++ [CDrain if rest <> []] ++ map push_call rest))
+                      (Determinism.singlefile_script Determinism.current_rule n pack ref rest)
+   i.e. the compile_go true / push_all true correspondence through the pack-boundary branch (TokenBlock curp no ::
+   Contig sz newp no with the lowered next_priority vs repeat (PPush tok) n ++ [PPush ctg] with pr_lower_next and
+   wrap_i32 on cur - 1 and newp - 1), plus nblocks = sf_rounds. *)
+
+(* ---- non-vacuity of part 2: two files (2 + 2 contigs), 2 workers and capacity 5 (every contig of 9 is oversize)
+   versus 3 workers and capacity 1000: both Protocol runs (the deterministic scheduler of Protocol_proofs) reach a
+   final state; the recorded rounds are the two files; every hypothesis of 2.1 - 2.3 holds for this instance *)
+Definition first2 : list Determinism.input := [((0, 0), 100, 9); ((0, 1), 101, 4)].
+Definition rest2 : list Determinism.input := [((1, 0), 110, 9); ((2, 0), 120, 3)].
+Definition script2 : list cmd := compile_calls false 1 (mf_calls first2 rest2).
+Definition sc2 (n : nat) : list Determinism.pact := Determinism.multifile_script Determinism.current_rule n first2 rest2.
+
+Example part2_nonvacuous :
+  let pa := mkParams 2 5 false in let pa' := mkParams 3 1000 false in
+  let s := auto_run pa 600 (init pa script2) in let s' := auto_run pa' 600 (init pa' script2) in
+  (2 * Z.of_nat (length (first2 ++ rest2)) + 4 < Consts_determinism.det_prio_start - 1000000)%Z /\
+  NoDup (map (fun inp : Determinism.input => fst (fst inp)) (first2 ++ rest2)) /\
+  script_match 2 script2 (sc2 2) /\ Determinism_proto.wf_script 2 2 (sc2 2) /\
+  script2 = [Contig 9 2147483647%Z 0; Contig 4 2147483647%Z 1; Drain; SyncAndFlush 2;
+             Contig 9 2147483646%Z 3; Contig 3 2147483645%Z 4] /\
+  reachable pa script2 s /\ final s /\ reachable pa' script2 s' /\ final s' /\
+  rounds s = [[5; 4]; [1; 0]] /\ rounds s' = [[6; 5]; [1; 0]] /\
+  map (map (fun sq => Determinism.t_key (task_at (sc2 2) sq))) (rev (rounds s)) = [[(0, 1); (0, 0)]; [(2, 0); (1, 0)]] /\
+  map (map (fun sq => Determinism.t_key (task_at (sc2 3) sq))) (rev (rounds s')) = [[(0, 1); (0, 0)]; [(2, 0); (1, 0)]].
+Proof.
+  cbv zeta.
+  assert (B : (2 * Z.of_nat (length (first2 ++ rest2)) + 4 < Consts_determinism.det_prio_start - 1000000)%Z)
+    by (vm_compute; reflexivity).
+  split; [exact B|]. split.
+  { cbn. repeat constructor; cbn; intuition discriminate. }
+  split; [exact (ConcLink_rounds.multifile_match_proof 2 1 first2 rest2 B)|].
+  split; [apply Determinism_gen.multifile_wf; [repeat constructor | exact B]|].
+  split; [vm_compute; reflexivity|].
+  split; [apply auto_run_reachable, reach_init|]. split; [apply finalb_final; vm_compute; reflexivity|].
+  split; [apply auto_run_reachable, reach_init|]. split; [apply finalb_final; vm_compute; reflexivity|].
+  repeat split; vm_compute; reflexivity.
 Qed.
